@@ -2151,6 +2151,16 @@ def call_concrete_method(ip: Any, recv: Any, name: str, bound: Any, args: list[A
         if len(args) != 1:
             raise Unsupported("regex match with pos/endpos")
         return regex.match_model(ip, recv, args[0], name)
+    import collections as _collections
+
+    if isinstance(recv, _collections.deque) and name in ("append", "appendleft", "extend", "extendleft") and sym_args:
+        # a concrete deque is a positional container: putting abstract values into it needs no comparison
+        if name in ("extend", "extendleft"):
+            seq = iteration(ip, args[0])
+            if not isinstance(seq, list):
+                raise Unsupported(f"deque.{name} with a symbolic-length iterable")
+            return getattr(recv, name)(seq)
+        return bound(*args)
     if sym_args and not isinstance(recv, (list, dict, tuple)):
         raise Unsupported(f"method {type(recv).__name__}.{name} called with symbolic arguments")
     return ip.native_call(bound, args, kwargs)
@@ -2476,3 +2486,5 @@ EXTRA_MODELS.update({_math_mod.isfinite: _m_math_pred("isfinite"), _math_mod.isn
 
 
 _register_checksums()
+EXTRA_MODELS[object.__setattr__] = b_setattr  # the __slots__-friendly spelling of setattr()
+EXTRA_MODELS[object.__getattribute__] = lambda ip, obj, name: ip.getattr_value(obj, name)
